@@ -97,7 +97,10 @@ func c10R1(c *Ctx, r *Report) {
 		if !isC {
 			return
 		}
-		p := ReachTargetAvoiding(fn, ia, lenGuards(blob, k+1), nil)
+		p := ReachTargetAvoiding(fn, ia, lenGuardsFull(blob, k+1), nil)
+		if p != nil && minLenAt(fn, blob, ia, k+1) >= k+1 {
+			p = nil
+		}
 		r.Check(p == nil, rule, fmt.Sprintf("%s / blob[%d] guarded", fnKey(fn), k), fmt.Sprintf("dominated by a test implying len(blob) >= %d", k+1), "index read without a sufficient length test", c.pathString(p)...)
 	})
 	// two-byte form accepted only with second byte == 1 and first byte >= 128
